@@ -95,8 +95,14 @@ def run(R, tier, seed, driver_ok):
         sgn = np.concatenate([np.ones(len(pos)), -np.ones(len(neg))])
         # --- oracle on the implementation
         scale = np.abs(M).max()
-        if np.abs(M - M.T).max() > 1e-10 * scale or np.linalg.eigvalsh((M + M.T) / 2).min() <= 0:
-            R.violation('ITML/not-spd', 'learned M is not symmetric positive definite', case); continue
+        mineig = np.linalg.eigvalsh((M + M.T) / 2).min()
+        if np.abs(M - M.T).max() > 1e-10 * scale or mineig < -1e-13 * scale:
+            R.violation('ITML/not-spd', f'learned M is not symmetric positive definite (smallest eigenvalue {mineig:.3g}, scale {scale:.3g})', case); continue
+        if mineig <= 1e-13 * scale:
+            # positive definite over ℝ (C11_pd), but conditioned beyond binary64 (e.g. a zero 5th-percentile distance turned
+            # into the bound 1e-9 with a large gamma): the smallest eigenvalue is rounding noise and the inverse-based
+            # certificates below say nothing
+            R.count('numerically-singular-result (certificates skipped)'); continue
         Delta = np.linalg.inv(M) - np.linalg.inv(A0)
         basis = np.stack([(s_ * np.outer(v, v)).ravel() for s_, v in zip(sgn, V)], axis=1)
         coef, resid = scipy.optimize.nnls(basis, Delta.ravel())
